@@ -19,6 +19,7 @@ func bigU(x uint64) *big.Int { return new(big.Int).SetUint64(x) }
 // checkOne evaluates the statement of C13 for one input.
 func checkOne(s *shard, I int64, Q uint64, min int64, fn string) {
 	s.evals++
+	s.mark("Rate{Interval,Quantity}."+fn+": Interval, Quantity, minimum = ", nil, uint64(I), Q, uint64(min), 0)
 	rt := limit.Rate{Interval: time.Duration(I), Quantity: Q}
 	var got limit.Rate
 	var err error
